@@ -47,10 +47,30 @@ def covers(p, args, out, fn):
             return False
         if not (lo <= val <= hi):
             return False
-        if all(isinstance(s, str) and s[0] == "p" and s[1:].isdigit() for s in r.lin.t):
+        def symval(s):
+            """exact value of a symbol at the concrete arguments: parameters, and isqrt summaries of parameter-only forms"""
+            if isinstance(s, str) and s[0] == "p" and s[1:].isdigit():
+                return Fraction(args[int(s[1:])])
+            from fxai.lin import term_args
+            ta = term_args(s) if isinstance(s, str) else None
+            if ta is not None and ta[0] == "isqrt":
+                cn, d, items = ta[1]
+                v = Fraction(cn, d)
+                for s2, c2 in items:
+                    sv = symval(s2)
+                    if sv is None:
+                        return None
+                    v += Fraction(c2, d) * sv
+                if v.denominator != 1 or v < 0:
+                    return None
+                import math
+                return Fraction(math.isqrt(int(v)))
+            return None
+        vals = {s: symval(s) for s in r.lin.t}
+        if all(v is not None for v in vals.values()):
             ex = Fraction(r.lin.cn, r.lin.d)
             for s, c in r.lin.t.items():
-                ex += Fraction(c, r.lin.d) * args[int(s[1:])]
+                ex += Fraction(c, r.lin.d) * vals[s]
             return ex == val
         return True
     if isinstance(r, BoolV):
@@ -66,7 +86,8 @@ def work(name):
     b = _G["b"]
     rnd = random.Random(hash(name) & 0xffff)
     try:
-        res, alarms, stats, an = runner.analyze_entry(b, name, rnd=rnd, refine_depth=0, want_paths=True)
+        res, alarms, stats, an = runner.analyze_entry(b, name, rnd=rnd, refine_depth=0, want_paths=True,
+                                                      opts={"summaries": bool(os.environ.get("SOUND_SUMMARIES"))})
     except (Broken, Infeasible) as e:
         return name, 0, ["broken: %s" % e]
     cx = Conc(an)
